@@ -490,7 +490,7 @@ var toUnicodeTmplNew = template.Must(template.New("cmap").Funcs(template.FuncMap
 		val := hexString(s.Value)
 		return fmt.Sprintf("<%x> %s", s.Code, val)
 	},
-	"RangeChunks": chunks[ToUnicodeRange],
+	"RangeChunks": tuRangeChunks,
 	"Range": func(r ToUnicodeRange) string {
 		if len(r.Values) == 1 {
 			return fmt.Sprintf("<%x> <%x> %s", r.First, r.Last, hexString(r.Values[0]))
@@ -547,3 +547,24 @@ var toUnicodeROS = &cid.SystemInfo{
 }
 
 const brokenReplacement = "\uFFFD"
+
+// tuRangeChunks splits the ranges into blocks of at most chunkSize entries.
+// In addition, blocks are kept short enough that a PostScript interpreter
+// with an operand stack of 500 entries can read them: each entry leaves three
+// objects on the stack until endbfrange, and an array is built on the stack.
+func tuRangeChunks(x []ToUnicodeRange) [][]ToUnicodeRange {
+	const maxDepth = 400
+	var res [][]ToUnicodeRange
+	start := 0
+	for i, r := range x {
+		n := i - start
+		if n > 0 && (n >= chunkSize || 3*n+3+len(r.Values) > maxDepth) {
+			res = append(res, x[start:i])
+			start = i
+		}
+	}
+	if start < len(x) {
+		res = append(res, x[start:])
+	}
+	return res
+}
